@@ -502,6 +502,8 @@ type simWorld struct {
 	viol     []simViolation
 	global   func(g *api.Global)
 	logBuf   *bytes.Buffer
+	// logHandler, if set, receives every record the daemon logs (harness-owned seam: park sites)
+	logHandler slog.Handler
 	stats    map[string]int
 }
 
@@ -549,6 +551,9 @@ func (w *simWorld) start() {
 	logger := slog.New(slog.NewTextHandler(io.Discard, &slog.HandlerOptions{Level: slog.LevelError}))
 	if os.Getenv("VERIF_SIM_LOG") != "" {
 		logger = slog.New(slog.NewTextHandler(os.Stderr, &slog.HandlerOptions{Level: slog.LevelDebug}))
+	}
+	if w.logHandler != nil {
+		logger = slog.New(w.logHandler)
 	}
 	w.s = NewBgpServer(LoggerOption(logger, nil))
 	go w.s.Serve()
